@@ -417,6 +417,14 @@ func selectRemoteAddedModuleForOpaqueIDIgnoreTargeting(
 	for _, addedModules := range commitIDToAddedModules {
 		uniqueAddedModules = append(uniqueAddedModules, addedModules[0])
 	}
+	// Map iteration order is random. Sort by commit ID so that commits with equal
+	// create times always resolve to the same addedModule.
+	sort.Slice(
+		uniqueAddedModules,
+		func(i int, j int) bool {
+			return uniqueAddedModules[i].remoteModuleKey.CommitID().String() < uniqueAddedModules[j].remoteModuleKey.CommitID().String()
+		},
+	)
 	if len(uniqueAddedModules) == 1 {
 		return uniqueAddedModules[0], nil
 	}
